@@ -1,7 +1,7 @@
 (* C13 — property theorems only.  Each is closed by [exact <lemma>] and followed by
    Print Assumptions; the statements are pinned here so they cannot be quietly weakened. *)
 From Coq Require Import Permutation.
-From FB Require Import C13.Model C13.Theory C13.Theory2 C13.Theory3.
+From FB Require Import C13.Model C13.Theory C13.Theory2 C13.Theory3 C13.Theory4.
 
 (* merge_preserve_order terminates: the fuel handed over is always enough *)
 Theorem C13_mpo_fuel_suffices : forall (A : Type) (eqb : A -> A -> bool), eqb_ok eqb ->
@@ -291,16 +291,19 @@ Print Assumptions C13_mark_class_frame.
    entry names: the skip rules as the code decides them (predicate trees regenerated from the
    conditions in fn merge) *)
 
-(* today: META-INF/ prefix and .SF or .RSA suffix; .class suffix, no net/minecraft/ prefix, a '/' *)
+(* today: META-INF/ prefix and .SF, .RSA, .DSA or .EC suffix — the signature file and the three kinds of signature block
+   file of the JAR specification (round 5, fix 39805d3; before it .DSA and .EC were kept) —; .class suffix, no net/minecraft/
+   prefix, a '/' *)
 Theorem C13_rules_today :
-  g_signature_rule = PAnd (PStarts s_metainf) (POr (PEnds s_SF) (PEnds s_RSA)) /\
+  g_signature_rule = PAnd (PStarts s_metainf) (POr (POr (POr (PEnds s_SF) (PEnds s_RSA)) (PEnds s_DSA)) (PEnds s_EC)) /\
   g_library_rule = PAnd (PAnd (PEnds s_class) (PNot (PStarts s_minecraft))) (PContains cSLASH).
 Proof. exact (conj (proj1 (proj2 (proj2 rules_today))) (proj1 (proj2 (proj2 (proj2 rules_today))))). Qed.
 Print Assumptions C13_rules_today.
 
 Theorem C13_signature_rule_spec : forall n,
   is_signature n = true <->
-  (exists r, n = s_metainf ++ r) /\ ((exists p, n = p ++ s_SF) \/ (exists p, n = p ++ s_RSA)).
+  (exists r, n = s_metainf ++ r) /\
+  ((exists p, n = p ++ s_SF) \/ (exists p, n = p ++ s_RSA) \/ (exists p, n = p ++ s_DSA) \/ (exists p, n = p ++ s_EC)).
 Proof. exact signature_rule_spec. Qed.
 Print Assumptions C13_signature_rule_spec.
 
@@ -324,8 +327,8 @@ Proof. exact library_is_class. Qed.
 Print Assumptions C13_library_is_class.
 
 (* net/minecraft/Bootstrap.class, Top.class, .class kept; net/minecraftx/E.class, net/minecraft.class,
-   a/.class bundled; META-INF/sub/Y.SF, META-INF/.SF signature files; META-INF/X.DSA, meta-inf/Z.SF,
-   X.SF not; … (Theory3.rule_examples) *)
+   a/.class bundled; META-INF/sub/Y.SF, META-INF/.SF, META-INF/X.DSA, META-INF/X.EC signature files; meta-inf/Z.SF,
+   META-INF/x.dsa, META-INF/X.DSA.txt, META-INF/SIG-X, X.SF, X.DSA not; … (Theory3.rule_examples) *)
 Theorem C13_rule_examples : rule_examples.
 Proof. exact rule_examples_hold. Qed.
 Print Assumptions C13_rule_examples.
@@ -359,7 +362,7 @@ Print Assumptions C13_entries_partition.
 (* ------------------------------------------------------------------------------------------
    jars *)
 
-(* every entry name of either jar exactly once, minus signature files (META-INF/*.SF, *.RSA) and
+(* every entry name of either jar exactly once, minus signature files (META-INF/*.SF, *.RSA, *.DSA, *.EC) and
    the classes the server bundles (server-only, *.class outside net/minecraft/ in some package);
    in the order client entries first; each entry built from the entries of that name *)
 Theorem C13_entries_once : forall (c s : jar) out,
@@ -422,8 +425,95 @@ Theorem C13_shared_resource_is_clients : forall ce se x dc ds,
 Proof. exact shared_resource_is_clients. Qed.
 Print Assumptions C13_shared_resource_is_clients.
 
+(* ------------------------------------------------------------------------------------------
+   round 5: the clauses of the property for WHOLE jars (read off C13_entries_once entry by entry) *)
+
+(* a class present on one side only is in the merged jar, under its name, as that class plus the class-level mark of that side
+   (a server-only class unless the library rule skips its name); a class with the same bytes on both sides is passed through —
+   these very bytes, or for a ClassRepr::Parsed input this very tree —; a class with different bytes is the class_merge of the
+   two versions, whose fields / methods / interfaces C13_class_merge, C13_members_marked, C13_interfaces_marked describe *)
+Theorem C13_jar_classes : forall c s out, NoDup (map e_name c) -> NoDup (map e_name s) -> merge_jar c s = OK out ->
+  (forall ce r raw p, In ce c -> e_content ce = Class r raw (Some p) -> ~ In (e_name ce) (map e_name s) ->
+     e_name ce <> s_manifest -> is_signature (e_name ce) = false ->
+     In (mkOEntry (e_name ce) (e_attr ce) (OParsed (mark_class p Client))) out) /\
+  (forall se r raw p, In se s -> e_content se = Class r raw (Some p) -> ~ In (e_name se) (map e_name c) ->
+     e_name se <> s_manifest -> is_signature (e_name se) = false -> is_server_library (e_name se) = false ->
+     In (mkOEntry (e_name se) (e_attr se) (OParsed (mark_class p Server))) out) /\
+  (forall ce se rc rs raw pc ps, In ce c -> In se s -> e_name ce = e_name se ->
+     e_content ce = Class rc raw pc -> e_content se = Class rs raw ps ->
+     e_name ce <> s_manifest -> is_signature (e_name ce) = false ->
+     match rc, pc with
+     | RVec, _ => In (mkOEntry (e_name ce) (e_attr ce) (OVec raw)) out
+     | RParsed, Some p => In (mkOEntry (e_name ce) (e_attr ce) (OParsed p)) out
+     | RParsed, None => True
+     end) /\
+  (forall ce se rc rs rawc raws pc ps, In ce c -> In se s -> e_name ce = e_name se ->
+     e_content ce = Class rc rawc pc -> e_content se = Class rs raws ps -> rawc <> raws ->
+     e_name ce <> s_manifest -> is_signature (e_name ce) = false ->
+     exists p q m, pc = Some p /\ ps = Some q /\ class_merge p q = OK m /\
+                   In (mkOEntry (e_name ce) (e_attr ce) (OParsed m)) out).
+Proof. exact jar_classes. Qed.
+Print Assumptions C13_jar_classes.
+
+(* every resource of the client, and every server-only resource the library rule does not name, is there unchanged (a resource
+   both sides have: the client's bytes); the manifest is the replacement; no signature file is there *)
+Theorem C13_jar_other_entries : forall c s out, NoDup (map e_name c) -> NoDup (map e_name s) -> merge_jar c s = OK out ->
+  (forall ce d, In ce c -> e_content ce = Other d -> e_name ce <> s_manifest -> is_signature (e_name ce) = false ->
+     In (mkOEntry (e_name ce) (e_attr ce) (OOther d)) out) /\
+  (forall se d, In se s -> e_content se = Other d -> ~ In (e_name se) (map e_name c) -> e_name se <> s_manifest ->
+     is_signature (e_name se) = false -> is_server_library (e_name se) = false ->
+     In (mkOEntry (e_name se) (e_attr se) (OOther d)) out) /\
+  (forall oe, In oe out -> o_name oe = s_manifest -> o_content oe = OOther manifest_bytes) /\
+  (forall n, n <> s_manifest -> is_signature n = true -> ~ In n (map o_name out)).
+Proof. exact jar_other_entries. Qed.
+Print Assumptions C13_jar_other_entries.
+
+(* the merge YIELDS a jar inside the hypotheses (the half the exact-once theorems presuppose): entries of one name have the same
+   kind; classes with the same bytes always combine, classes with different bytes when both are readable and agree as
+   C13_class_merge_ok demands; a class only one side has is readable — all of it only for names whose content the merge looks
+   at (not the manifest, not a signature file, not a bundled server library) *)
+Theorem C13_merge_jar_ok : forall c s, NoDup (map e_name c) -> NoDup (map e_name s) ->
+  (forall ce, In ce c -> ~ In (e_name ce) (map e_name s) -> content_matters (e_name ce) -> single_ok ce) ->
+  (forall se, In se s -> ~ In (e_name se) (map e_name c) -> content_matters (e_name se) -> is_server_library (e_name se) = false -> single_ok se) ->
+  (forall ce se, In ce c -> In se s -> e_name ce = e_name se -> content_matters (e_name ce) -> pair_ok ce se) ->
+  exists out, merge_jar c s = OK out.
+Proof. exact merge_jar_ok. Qed.
+Print Assumptions C13_merge_jar_ok.
+
+Theorem C13_merge_jar_hyps_spec : forall ce se e n,
+  (pair_ok ce se <->
+   match e_content ce, e_content se with
+   | Dir, Dir => True
+   | Other _, Other _ => True
+   | Class rc rawc pc, Class _ raws ps =>
+       if N.eqb rawc raws then (rc = RParsed -> pc <> None)
+       else exists p q, pc = Some p /\ ps = Some q /\ classes_agree p q
+   | _, _ => False
+   end) /\
+  (single_ok e <-> match e_content e with Class _ _ None => False | _ => True end) /\
+  (content_matters n <-> n <> s_manifest /\ is_signature n = false).
+Proof. exact (fun ce se e n => conj (conj (fun x => x) (fun x => x)) (conj (conj (fun x => x) (fun x => x)) (conj (fun x => x) (fun x => x)))). Qed.
+Print Assumptions C13_merge_jar_hyps_spec.
+
+(* an input that was merged before: marks accumulate (a second merge appends its own mark, whatever marks are there) *)
+Theorem C13_marks_accumulate : forall p m sd sd',
+  c_vis (mark_class (mark_class p sd) sd') = c_vis p ++ [AEnv sd; AEnv sd'] /\
+  m_inv (mark_member (mark_member m sd) sd') = m_inv m ++ [AEnv sd; AEnv sd'] /\
+  (forall e x r raw, e_content e = Class r raw (Some (mark_class p sd)) -> one_side e sd' = OK x ->
+     x = OParsed (mark_class (mark_class p sd) sd')).
+Proof. exact marks_accumulate. Qed.
+Print Assumptions C13_marks_accumulate.
+
 (* non-vacuity: the repaired witness [1;2;3] / [1;9;2;3], an incompatible pair, and a jar pair with
    every kind of table row, evaluated by the model *)
 Theorem C13_examples : nonvacuous.
 Proof. exact nonvacuous_holds. Qed.
 Print Assumptions C13_examples.
+
+(* non-vacuity of the round-5 theorems: a two-step sequence evaluated by the model — step 1 merges jars with a multi-release
+   class (META-INF/versions/9/net/minecraft/V.class, differing between the sides: merged and marked), META-INF/X.DSA and X.EC
+   (dropped), one-sided classes (marked); step 2 takes the result as the server of a second merge: the class the first merge
+   marked CLIENT carries [CLIENT; SERVER] afterwards, the server-only multi-release class falls under the library rule *)
+Theorem C13_examples4 : nonvacuous4.
+Proof. exact nonvacuous4_holds. Qed.
+Print Assumptions C13_examples4.
